@@ -20,6 +20,7 @@ import (
 	"os/exec"
 	"path/filepath"
 	"regexp"
+	"runtime"
 	"sort"
 	"strconv"
 	"strings"
@@ -27,6 +28,8 @@ import (
 	"sync/atomic"
 	"time"
 
+	lazymap1 "github.com/PapaCharlie/go-restli/d2/lazymap"
+	lazymap2 "github.com/PapaCharlie/go-restli/v2/d2/lazymap"
 	"github.com/PapaCharlie/go-restli/v2/fnv1a"
 	"github.com/PapaCharlie/go-restli/v2/restlicodec"
 
@@ -454,6 +457,61 @@ func typerefChild(seed int64, n int) *childReport {
 }
 
 // ---------------------------------------------------------------------------------------------
+// child: the lazy map behind the D2 client's per-service / per-cluster state, cold keys hit by several callers at once
+
+type lazy interface {
+	LoadOrStore(key interface{}, f func() interface{}) interface{}
+	Load(key interface{}) (interface{}, bool)
+}
+
+func lazyChild(gen string, seed int64, n int) *childReport {
+	rep := &childReport{Gen: gen, Workload: "lazymap-cold", Shapes: map[string]int{}}
+	var m lazy = new(lazymap2.LazySyncMap)
+	if gen == "root" {
+		m = new(lazymap1.LazySyncMap)
+	}
+	for round := 0; round < n; round++ {
+		callers := []int{2, 8, 3, 16}[round%4]
+		key := fmt.Sprintf("service-%d-%d", seed, round)
+		var loads int64
+		results := make([]interface{}, callers)
+		start := make(chan struct{})
+		var wg sync.WaitGroup
+		for c := 0; c < callers; c++ {
+			wg.Add(1)
+			go func(c int) {
+				defer wg.Done()
+				<-start
+				results[c] = m.LoadOrStore(key, func() interface{} {
+					k := atomic.AddInt64(&loads, 1)
+					if round%5 == 0 {
+						runtime.Gosched()
+					}
+					return fmt.Sprintf("state-of-%s-load-%d", key, k)
+				})
+			}(c)
+		}
+		close(start)
+		wg.Wait()
+		rep.Requests += callers
+		rep.Compared += callers
+		// a serial execution loads once and hands every caller that value
+		final, _ := m.Load(key)
+		bad := loads != 1
+		for _, r := range results {
+			if r != results[0] || r != final {
+				bad = true
+			}
+		}
+		if bad {
+			rep.add(mismatch{What: "cold-key-differs-from-serial", Kind: "lazymap", Goroutines: callers, Detail: fmt.Sprintf("key %s: the loader ran %d times, callers received %v, the map now holds %v", key, loads, results, final)})
+		}
+	}
+	rep.Shapes["cold-keys"] = n
+	return rep
+}
+
+// ---------------------------------------------------------------------------------------------
 
 func child(args []string) {
 	log.SetOutput(io.Discard)
@@ -478,6 +536,8 @@ func child(args []string) {
 		rep = d2Child(gen, seed, n)
 	case "typeref-registry":
 		rep = typerefChild(seed, n)
+	case "lazymap-cold":
+		rep = lazyChild(gen, seed, n)
 	}
 	b, _ := json.Marshal(rep)
 	fmt.Println("C17-CHILD " + string(b))
@@ -496,7 +556,7 @@ func main() {
 		return
 	}
 	run := ev.Start("C17")
-	run.Rule("execution = (generation, workload, GOMAXPROCS, repetition) in a child process under the race detector. http workloads: a seeded list of requests (15 request kinds x 7 outcomes, unique token in key, parameter, header and body; one handler with three filters, one shared restli.Client with a tunnelling threshold) executed serially, then with 8, 32 and 64 goroutines with injected yields/sleeps; per request the invocation(s) seen by resource code, pre-request filter events, status, error / id / location headers, body (stack trace removed), client result and error must equal the serial execution and contain no other request's token; shared error objects must be unchanged. http-inproc: the same over an in-process transport (no socket, hence no synchronisation other than the library's own between requests). http-cold: fresh handlers whose very first requests arrive concurrently (48 requests, 8-48 goroutines, in process), the serial execution follows on the same handler. http-late-*: the handler serves while the Server it was taken from keeps registering finders and actions on resources the handler already knows. Every pre-request filter event must name the resource path chain of its own request (two sibling leaves at nesting depth 4 included). d2: 16 goroutines resolve while the library's update loop consumes announcements (a permanent host keeps every snapshot resolvable). typeref-registry (v2): 16 goroutines marshal/unmarshal/hash registered custom typerefs while 6 more types register. Any race report whose access stacks pass through go-restli code is a violation, deduplicated by the innermost library functions. distinct = (generation, workload, request kind|outcome) compared + executions")
+	run.Rule("execution = (generation, workload, GOMAXPROCS, repetition) in a child process under the race detector. http workloads: a seeded list of requests (15 request kinds x 7 outcomes, unique token in key, parameter, header and body; one handler with three filters, one shared restli.Client with a tunnelling threshold) executed serially, then with 8, 32 and 64 goroutines with injected yields/sleeps; per request the invocation(s) seen by resource code, pre-request filter events, status, error / id / location headers, body (stack trace removed), client result and error must equal the serial execution and contain no other request's token; shared error objects must be unchanged. http-inproc: the same over an in-process transport (no socket, hence no synchronisation other than the library's own between requests). http-cold: fresh handlers whose very first requests arrive concurrently (48 requests, 8-48 goroutines, in process), the serial execution follows on the same handler. http-late-*: the handler serves while the Server it was taken from keeps registering finders and actions on resources the handler already knows. Every pre-request filter event must name the resource path chain of its own request (two sibling leaves at nesting depth 4 included). lazymap-cold: the lazy map that holds the D2 client's per-service state, 2-16 callers released together on a fresh key: one load, one value for all. d2: 16 goroutines resolve while the library's update loop consumes announcements (a permanent host keeps every snapshot resolvable). typeref-registry (v2): 16 goroutines marshal/unmarshal/hash registered custom typerefs while 6 more types register. Any race report whose access stacks pass through go-restli code is a violation, deduplicated by the innermost library functions. distinct = (generation, workload, request kind|outcome) compared + executions")
 	run.Assume("only accesses that executed under the detector are covered; the scheduler chooses the interleavings (GOMAXPROCS 2/4/16, random yields)")
 	self, _ := os.Executable()
 	dir := filepath.Join(os.Getenv("VERIF_WORK_DIR"), "race-c17")
@@ -511,7 +571,7 @@ func main() {
 	var jobs []job
 	for _, gen := range []string{"v2", "root"} {
 		jobs = append(jobs, job{gen, "http-bare", run.Pick(300, 1500)}, job{gen, "http-prefixed", run.Pick(150, 800)}, job{gen, "d2", run.Pick(3000, 30000)},
-			job{gen, "http-inproc", run.Pick(300, 1500)}, job{gen, "http-cold", run.Pick(480, 4800)}, job{gen, "http-late-bare", run.Pick(200, 1000)}, job{gen, "http-late-inproc", run.Pick(200, 1000)})
+			job{gen, "http-inproc", run.Pick(300, 1500)}, job{gen, "http-cold", run.Pick(480, 4800)}, job{gen, "http-late-bare", run.Pick(200, 1000)}, job{gen, "http-late-inproc", run.Pick(200, 1000)}, job{gen, "lazymap-cold", run.Pick(3000, 30000)})
 	}
 	jobs = append(jobs, job{"v2", "typeref-registry", run.Pick(2000, 20000)})
 	reps := run.Pick(2, 6)
